@@ -47,19 +47,35 @@ Definition prefix_word (l : language) (t : token) : bool :=
   negb (kw_is t kw_new) && negb (kw_is t kw_record).
 
 (* parameter lists of JavaScript / TypeScript: plain tokens, nested parenthesis groups and FLAT brace groups —
-   destructuring patterns `{ a , b }`, default values `= { }`.  At one nesting depth no brace group may follow once a ")"
-   has occurred at that depth: `cb = ( a ) => { }` or `g ( x ) : T , { b }` inside a parameter list would be header
-   shapes of their own (Scope/GrammarAllProofsCex.v: cex_binner_headers).  The flag says whether a brace group may
-   still start at this depth. *)
-Inductive binner : bool -> list token -> Prop :=
-| bi_nil ok : binner ok []
-| bi_plain ok t r : plain t = true -> binner ok r -> binner ok (t :: r)
-| bi_group ok o g c r : is_lparen o = true -> binner true g -> is_rparen c = true -> binner false r ->
-                        binner ok (o :: g ++ c :: r)
-| bi_brace o flat c r : is_lbrace o = true -> forallb plain flat = true -> is_rbrace c = true -> binner true r ->
-                        binner true (o :: flat ++ c :: r).
+   destructuring patterns `{ a , b }`, default values `= { }`.  A brace group must not complete a header shape that
+   starts inside the parameter list: `cb = ( a ) => { }` and `g ( x ) : T , { b }` would be header shapes of their own
+   (Scope/GrammarAllProofsCex.v: cex_binner_headers).  At one nesting depth a state says where a brace group may start:
+     BSafe   — it may;
+     BGroup  — right after a ")": it may not (`name (…) {`); a ":" operator here begins what TypeScript reads as a
+               return type, which runs over any token but ";" "{" and bare parentheses, so no brace group may follow at
+               this depth any more (BPoison); "=>" leads to BArrow; any other plain token leads back to BSafe
+               (`p1 = mk ( 2 ) , { a , b }` is fine: after the groups neither "{" nor ":" nor "=>" follows);
+     BArrow  — right after `(…) =>`: it may not; any plain token leads back to BSafe;
+     BPoison — never again at this depth.
+   The inside of a nested parenthesis group starts in BSafe whatever the state outside (the matcher's balanced-group
+   predicate swallows it whole). *)
+Inductive bstate := BSafe | BGroup | BArrow | BPoison.
+Definition after_group (s : bstate) : bstate := match s with BPoison => BPoison | _ => BGroup end.
+Definition bstep_plain (s : bstate) (t : token) : bstate :=
+  match s with
+  | BPoison => BPoison
+  | BGroup => if is_operator t s_colon then BPoison else if is_symbol t s_arrow then BArrow else BSafe
+  | _ => BSafe
+  end.
+Inductive binner : bstate -> list token -> Prop :=
+| bi_nil s : binner s []
+| bi_plain s t r : plain t = true -> binner (bstep_plain s t) r -> binner s (t :: r)
+| bi_group s o g c r : is_lparen o = true -> binner BSafe g -> is_rparen c = true -> binner (after_group s) r ->
+                       binner s (o :: g ++ c :: r)
+| bi_brace o flat c r : is_lbrace o = true -> forallb plain flat = true -> is_rbrace c = true -> binner BSafe r ->
+                        binner BSafe (o :: flat ++ c :: r).
 Inductive bgroup : list token -> Prop :=
-| bgroup_intro o g c : is_lparen o = true -> binner true g -> is_rparen c = true -> bgroup (o :: g ++ [c]).
+| bgroup_intro o g c : is_lparen o = true -> binner BSafe g -> is_rparen c = true -> bgroup (o :: g ++ [c]).
 Inductive bgroups : list token -> Prop :=
 | bgroups_one g : bgroup g -> bgroups g
 | bgroups_more g r : bgroup g -> bgroups r -> bgroups (g ++ r).
